@@ -19,6 +19,14 @@
               NOT decided: the property allows "the most recent ones that fit the configured buffer";
               what IS decided (C08.BUF) is that every resize is bounded by config.max_buffer_len on
               each path.
+  C08.FRESH   one value of the input-period estimate per tick: on every path of _ResamplingHelper.resample
+              the refresh (_update_source_sample_period, the only writer) runs before anything reads the
+              estimate - the relevance period, helpers that read it (buffer sizing), the source properties
+              handed to the resampling function.  A must-precede analysis over the statements, helper
+              calls followed inside the class / module.
+  C08.UNIT    durations enter the arithmetic of the module whole (`.total_seconds()`): no component field
+              of a timedelta (`.seconds`, `.microseconds`, `.days`), no int()/round()/floor()/`//` of
+              total_seconds().
   C08.TICK    the T of a tick is the coordinator's window end, advanced exactly once per tick also when
               a series fails (per-tick rules of the C07 checker, re-reported here).
 """
@@ -568,6 +576,232 @@ def check_est(run: Run, prog: Program) -> None:
                   instance=f"{ad.qual}: sampling_start set once [{'first sample' if unknown else 'later sample'}]")
 
 
+# ---------------------------------------------------------------------------------------------- C08.FRESH
+UPDATE = "_update_source_sample_period"
+SP_ATTR = SP.rsplit(".", 1)[1]
+
+
+def _always_evaluated(e: ast.AST) -> list[ast.AST]:
+    """Sub-expressions evaluated whenever `e` is: not the later operands of and/or, not the arms of a
+    conditional expression, not the bodies of comprehensions / lambdas."""
+    out: list[ast.AST] = []
+    stack = [e]
+    while stack:
+        n = stack.pop()
+        out.append(n)
+        if isinstance(n, ast.BoolOp):
+            stack.append(n.values[0])
+        elif isinstance(n, ast.IfExp):
+            stack.append(n.test)
+        elif isinstance(n, (ast.ListComp, ast.SetComp, ast.GeneratorExp, ast.DictComp)):
+            stack.append(n.generators[0].iter)
+        elif isinstance(n, ast.Lambda):
+            continue
+        else:
+            stack.extend(ast.iter_child_nodes(n))
+    return out
+
+
+class _Fresh:
+    """Must-precede analysis over the statements of the tick function: on every path the refresh of the
+    input-period estimate (the only writer of `sampling_period`) runs before anything of the tick reads
+    the estimate - directly, inside a helper of the class / module, or by handing the source properties to
+    the resampling function."""
+
+    def __init__(self, fn: FuncInfo) -> None:
+        self.fn = fn
+        self.memo_reads: dict[str, bool] = {}
+        self.memo_upd: dict[str, bool] = {}
+        self.early: list[tuple[ast.AST, str]] = []      # reads not preceded by the refresh
+        self.late: list[tuple[ast.AST, str]] = []       # reads preceded by it
+        self.n_updates = 0
+
+    # ---- callees inside the class / module
+    def _callee(self, call: ast.Call) -> FuncInfo | None:
+        f = call.func
+        if isinstance(f, ast.Attribute) and isinstance(f.value, ast.Name) and f.value.id == "self" and self.fn.cls is not None:
+            return self.fn.cls.methods.get(f.attr)
+        if isinstance(f, ast.Name):
+            return self.fn.module.functions.get(f.id)
+        return None
+
+    def _is_update(self, call: ast.Call) -> bool:
+        g = self._callee(call)
+        if g is None:
+            return False
+        if g.name == UPDATE:
+            return True
+        if g.qual not in self.memo_upd:
+            self.memo_upd[g.qual] = False      # recursion guard
+            sub = _Fresh(g)
+            sub.memo_upd, sub.memo_reads = self.memo_upd, self.memo_reads
+            exits: list[bool] = []
+            end = sub.flow(list(g.node.body), False, exits, record=False)
+            self.memo_upd[g.qual] = all(exits) and (end is None or end) and (bool(exits) or end is True)
+        return self.memo_upd[g.qual]
+
+    def _fn_reads(self, g: FuncInfo) -> bool:
+        if g.name == UPDATE:
+            return False
+        if g.qual not in self.memo_reads:
+            self.memo_reads[g.qual] = False
+            self.memo_reads[g.qual] = bool(self._reads_in(g.node, g))
+        return self.memo_reads[g.qual]
+
+    def _reads_in(self, node: ast.AST, owner: FuncInfo | None = None) -> list[tuple[ast.AST, str]]:
+        """Reads of the estimate an evaluation of `node` performs (nested defs / lambdas are not evaluated here)."""
+        from ..engine.resolver import walk_no_nested
+
+        owner = owner or self.fn
+        aliases = {t.id for st in ast.walk(owner.node) if isinstance(st, (ast.Assign, ast.AnnAssign)) and st.value is not None
+                   and u(st.value) == PROPS for t in (st.targets if isinstance(st, ast.Assign) else [st.target])
+                   if isinstance(t, ast.Name)}
+        out: list[tuple[ast.AST, str]] = []
+        for n in walk_no_nested(node, include_root=not isinstance(node, (ast.FunctionDef, ast.AsyncFunctionDef))):
+            if isinstance(n, ast.Attribute) and n.attr == SP_ATTR and isinstance(n.ctx, ast.Load):
+                out.append((n, u(n)))
+            elif isinstance(n, ast.Call):
+                sub = _Fresh(owner) if owner is not self.fn else self
+                if owner is not self.fn:
+                    sub.memo_upd, sub.memo_reads = self.memo_upd, self.memo_reads
+                g = sub._callee(n)
+                if g is not None and g.name != UPDATE and self._fn_reads(g):
+                    out.append((n, f"{u(n.func)}(...) [reads {SP_ATTR}]"))
+                elif g is None and any(u(a) == PROPS or (isinstance(a, ast.Name) and a.id in aliases)
+                                       for a in list(n.args) + [k.value for k in n.keywords]):
+                    out.append((n, f"{u(n.func)}(..., <source properties>)"))
+        return out
+
+    def _expr(self, e: ast.AST | None, seen: bool, record: bool) -> bool:
+        if e is None:
+            return seen
+        upd = [c for c in _always_evaluated(e) if isinstance(c, ast.Call) and self._is_update(c)]
+        if record:
+            self.n_updates += len(upd)
+            for node, text in self._reads_in(e):
+                pos = (getattr(node, "lineno", 0), getattr(node, "col_offset", 0))
+                before = any((getattr(c, "end_lineno", 0), getattr(c, "end_col_offset", 0)) <= pos for c in upd)
+                (self.late if seen or before else self.early).append((node, text))
+        return seen or bool(upd)
+
+    def flow(self, stmts: list[ast.stmt], seen: bool, exits: list[bool], record: bool = True) -> bool | None:  # noqa: C901
+        """State after the statements (None: every path left the function); `exits` collects the state at
+        each return."""
+        cur: bool | None = seen
+        for s in stmts:
+            if cur is None:
+                break
+            if isinstance(s, (ast.FunctionDef, ast.AsyncFunctionDef, ast.ClassDef)):
+                continue
+            if isinstance(s, ast.Return):
+                cur = self._expr(s.value, cur, record)
+                exits.append(cur)
+                return None
+            if isinstance(s, ast.Raise):
+                self._expr(s.exc, cur, record)
+                return None
+            if isinstance(s, ast.If):
+                cur = self._expr(s.test, cur, record)
+                a = self.flow(s.body, cur, exits, record)
+                b = self.flow(s.orelse, cur, exits, record)
+                cur = None if a is None and b is None else (a if b is None else b if a is None else (a and b))
+            elif isinstance(s, (ast.For, ast.AsyncFor, ast.While)):
+                cur = self._expr(s.iter if not isinstance(s, ast.While) else s.test, cur, record)
+                self.flow(s.body, cur, exits, record)       # may run zero times
+                self.flow(s.orelse, cur, exits, record)
+            elif isinstance(s, (ast.With, ast.AsyncWith)):
+                for it in s.items:
+                    cur = self._expr(it.context_expr, cur, record)
+                cur = self.flow(s.body, cur, exits, record)
+            elif isinstance(s, ast.Try):
+                entry = cur
+                a = self.flow(s.body, cur, exits, record)
+                outs = [self.flow(s.orelse, a, exits, record) if a is not None else None]
+                outs += [self.flow(h.body, entry, exits, record) for h in s.handlers]
+                live = [o for o in outs if o is not None]
+                cur = None if not live else all(live)
+                if s.finalbody:
+                    f = self.flow(s.finalbody, bool(cur) if cur is not None else entry, exits, record)
+                    cur = None if cur is None or f is None else f
+            elif isinstance(s, ast.Match):
+                cur = self._expr(s.subject, cur, record)
+                outs = [self.flow(c.body, cur, exits, record) for c in s.cases]
+                live = [o for o in outs if o is not None]
+                cur = all(live) and cur if live else cur
+            else:
+                for child in ast.iter_child_nodes(s):
+                    if isinstance(child, ast.expr):
+                        cur = self._expr(child, cur, record)
+        return cur
+
+
+def check_fresh(run: Run, prog: Program) -> None:
+    fn = prog.func(f"{HELPER}.resample")
+    run.analysed(fn.qual)
+    fr = _Fresh(fn)
+    body = list(fn.node.body)
+    fr.flow(body, False, [])
+    if not fr.n_updates and not fr.early and not fr.late:
+        raise AnalysisError(f"{fn.qual}: neither the refresh of the input-period estimate nor a read of it found")
+    if not fr.early and not fr.late:
+        raise AnalysisError(f"{fn.qual}: no read of `{SP_ATTR}` found in the tick (relevance window not computed here?)")
+    for node, text in fr.early:
+        run.violation("C08.FRESH", fn.qual, text,
+                      f"`{text}` (line {getattr(node, 'lineno', 0)}) is evaluated on a path on which {UPDATE}() has not run "
+                      "yet in this tick: on the tick that produces the estimate the relevance window T - max(period, "
+                      "input period) * max_age is still computed from the stale value (unknown => resampling period) "
+                      "while the buffer is already resized and the resampling function is handed source properties "
+                      "carrying the new input period; when up-sampling, the received valid samples stamped in "
+                      "(T - max_age*input period, T - max_age*period] are withheld on that tick (the value can even be "
+                      "None although the set is not empty).  Excluded alike: refreshing after the slice, after the "
+                      "function call, at the end of the tick or only on some paths.",
+                      node=node, file=fn.file)
+    for node, text in fr.late:
+        run.ok("C08.FRESH", f"{fn.qual}: `{text[:80]}` read after the refresh of the estimate")
+
+
+# ---------------------------------------------------------------------------------------------- C08.UNIT
+_TD_FIELDS = {"seconds", "microseconds", "days"}
+_TRUNC = {"int", "round", "math.floor", "math.trunc", "floor", "trunc"}
+
+
+def check_unit(run: Run, prog: Program) -> None:
+    """Durations enter the arithmetic of the resampling module whole: `.total_seconds()` (or a ratio of two
+    timedeltas), never one component field of a timedelta (`.seconds` / `.microseconds` / `.days` drop the
+    rest of the duration) and never truncated to whole seconds before they are used."""
+    mod = prog.module(MOD)
+
+    def is_total(e: ast.AST) -> bool:
+        return isinstance(e, ast.Call) and isinstance(e.func, ast.Attribute) and e.func.attr == "total_seconds" and not e.args
+
+    funcs = list(mod.functions.values()) + [m for c in mod.classes.values() for m in c.methods.values()]
+    for f in funcs:
+        for n in ast.walk(f.node):
+            if isinstance(n, ast.Attribute) and n.attr in _TD_FIELDS and isinstance(n.ctx, ast.Load):
+                run.violation("C08.UNIT", f.qual, n,
+                              f"`{u(n)}` is one component field of a timedelta, not the duration: for a fractional, "
+                              "sub-second or multi-day period it is smaller than (or unrelated to) `.total_seconds()` "
+                              "(0 for 0.5 s, 2 for 2.5 s).  In the buffer sizing this re-creates the buffer for a shorter "
+                              "span than the relevance window (T - max_age*period, T]: received valid samples inside the "
+                              "window are dropped although config.max_buffer_len would hold them; in the estimate / its "
+                              "threshold it corrupts the input period the window is computed from.  Excluded alike: "
+                              "`.microseconds`, `.days`, int()/round()/floor() of total_seconds().",
+                              node=n, file=f.file)
+            elif is_total(n):
+                run.ok("C08.UNIT", f"{f.qual}: {u(n)[:80]} (whole duration)")
+            if isinstance(n, ast.Call) and (u(n.func) in _TRUNC or prog.external_name(mod, u(n.func)) in _TRUNC) \
+                    and len(n.args) >= 1 and is_total(n.args[0]):
+                run.violation("C08.UNIT", f.qual, n,
+                              f"`{u(n)[:100]}` truncates a duration to whole seconds before it is used: fractional and "
+                              "sub-second periods lose their fraction (same effect as reading `.seconds`)",
+                              node=n, file=f.file)
+            if isinstance(n, ast.BinOp) and isinstance(n.op, ast.FloorDiv) and (is_total(n.left) or is_total(n.right)):
+                run.violation("C08.UNIT", f.qual, n,
+                              f"`{u(n)[:100]}` floor-divides a duration in seconds: the fraction of the ratio is dropped "
+                              "before the max_age factor and the ceil are applied", node=n, file=f.file)
+
+
+
 CONTROLS = [
     ("bisect_left on the lower edge", MOD,
      "        min_index = bisect(\n", "        min_index = bisect_left(\n", "C08.EDGE"),
@@ -585,6 +819,16 @@ CONTROLS = [
     ("estimate never taken while unknown", MOD, "            props.sampling_period is not None\n", "            props.sampling_period is None\n", "C08.EST"),
     ("buffer-full test made a tautology", MOD, "            or len(self._buffer) < self._buffer.maxlen\n",
      "            or len(self._buffer) <= self._buffer.maxlen\n", "C08.EST"),
+    ("estimate not refreshed before the window is computed", MOD,
+     "        if self._update_source_sample_period(timestamp):\n            self._update_buffer_len()\n\n        conf = self._config\n",
+     "        conf = self._config\n", "C08.FRESH"),
+    ("input period read before the refresh", MOD,
+     "        if self._update_source_sample_period(timestamp):\n            self._update_buffer_len()\n",
+     "        known = self._source_properties.sampling_period is not None\n"
+     "        if self._update_source_sample_period(timestamp) or known:\n            self._update_buffer_len()\n", "C08.FRESH"),
+    ("component field of the resampling period", MOD,
+     "                config.resampling_period.total_seconds()\n                / input_sampling_period.total_seconds()",
+     "                config.resampling_period.seconds\n                / input_sampling_period.total_seconds()", "C08.UNIT"),
     ("sample not counted", MOD, "        self._source_properties.received_samples += 1\n", "", "C08.EST"),
 ]
 
@@ -615,6 +859,8 @@ def run_rules(run: Run, prog: Program) -> None:
     check_filter(run, prog)
     check_buf(run, prog)
     check_est(run, prog)
+    check_fresh(run, prog)
+    check_unit(run, prog)
     check_tick(run, prog)
 
 
@@ -628,7 +874,13 @@ def check(run: Run, prog: Program, tier: str) -> str:
     run.rule("C08.BUF", "bounded deque, right-append only, re-created from old content on resize")
     run.rule("C08.EST", "input period estimated only after excluding now <= sampling_start, reachable while unknown, "
              "= elapsed / received; add_sample counts every stored sample once and records the first timestamp")
+    run.rule("C08.FRESH", "on every path of a tick the input-period estimate is refreshed before the relevance window, "
+             "the buffer sizing or the resampling function read it (one value of the estimate per tick)")
+    run.rule("C08.UNIT", "durations are converted whole (total_seconds()): no timedelta component field, no truncation "
+             "to whole seconds, in the resampling module")
     run_rules(run, prog)
+    run.floor("C08.FRESH", 2)
+    run.floor("C08.UNIT", 4)
     run.floor("C08.EDGE", 4)
     run.floor("C08.FILTER", 3)
     run.floor("C08.BUF", 3)
